@@ -60,6 +60,13 @@ def r171(ctx, api):
     for d in defs:
         texts.append('<argument>' if d == cfg.entry else norm(cfg.nodes[d].stmt))
     ok = sorted(texts) == ['<argument>', 'dtypes = self._dtypes(categories)']
+    if not ok and 'dtypes = self.dtypes' in texts and sorted(t for t in texts if t != 'dtypes = self.dtypes') == \
+            ['<argument>', 'dtypes = self._dtypes(categories)']:
+        # the stored default answer (self.dtypes = self._dtypes(), set once in _set_attrs - checked below) may stand in
+        # for the call exactly when the call would be the default one
+        sd = [s_ for s_ in iter_child_stmts(f.body) if isinstance(s_, ast.Assign) and norm(s_) == 'dtypes = self.dtypes']
+        ok = all([(norm(e.test), fld) for e, fld in cfg.enclosing_tests(s_) if isinstance(e, ast.If)][-1:] == [('categories is None', 'body')]
+                 for s_ in sd)
     ctx.ob('R17.1', 'api.pre_allocate:dtypes-is-the-override-or-self._dtypes(categories)', ok,
            'definitions of dtypes reaching the allocation: %s (a cached self.dtypes is overwritten by every call '
            'with other categories and must not be reused)' % sorted(texts), api.loc(call[0]))
@@ -67,7 +74,9 @@ def r171(ctx, api):
     dd = [s for s in iter_child_stmts(f.body) if isinstance(s, ast.Assign) and norm(s) == 'dtypes = self._dtypes(categories)']
     if dd:
         tests = [(norm(e.test), fld) for e, fld in cfg.enclosing_tests(dd[0]) if isinstance(e, ast.If)]
-        ctx.ob('R17.1', 'api.pre_allocate:prediction-computed-whenever-no-override', tests == [('dtypes is not None', 'orelse')], str(tests), api.loc(dd[0]))
+        ctx.ob('R17.1', 'api.pre_allocate:prediction-computed-whenever-no-override',
+               tests == [('dtypes is not None', 'orelse')] or tests == [('dtypes is not None', 'orelse'), ('categories is None', 'orelse')],
+               str(tests), api.loc(dd[0]))
     # categories: same definition for _dtypes and check_categories
     cc = [s for s in iter_child_stmts(f.body) if isinstance(s, ast.Assign) and norm(s) == 'categories = self.check_categories(categories)']
     ok = len(cc) == 1 and bool(dd) and rd.defs_reaching(cfg.node_of(dd[0]), 'categories') == {cfg.entry} and \
